@@ -308,6 +308,24 @@ func runBattle(e *emitter, c []int64) {
 		if !stepped(e, bc, sim, ws, rr) {
 			return
 		}
+		if bc.recorder != nil {
+			// ... and a reset that follows the spawns directly, before any task has run (a round set up and abandoned):
+			// the recorder must show every address empty again (a second record 14)
+			out := []int64{14}
+			if !guard(func() {
+				sim.Reset()
+				for i := range bc.ws {
+					sim.SpawnWarrior(i, gmars.Address(bc.ws[i].off))
+				}
+				sim.Reset()
+				for a := gmars.Address(0); a < sim.CoreSize(); a++ {
+					st, col := bc.recorder.GetMemState(a)
+					out = append(out, int64(st), int64(col))
+				}
+			}) {
+				e.rec(out...)
+			}
+		}
 	}
 	if fl&2 != 0 {
 		// a fresh simulator driven by one Run() call
